@@ -5,21 +5,9 @@
    and the exported mxj functions Map.Json, Map.JsonIndent, NewMapJson, Map.Copy; the model
    (Model/Json.v) is evaluated on the same inputs. Numbers travel as text: a float64 is the text
    encoding/json prints for it. *)
-From Mxj Require Export Model.Json.
+From Mxj Require Export Spec.JsonSpec.
 
 Inductive jout := JBytes (b : str) | JVal (v : value) | JFail | JPanicked.
-
-(* NewMapJson (json.go:128-147) as a function of the stdlib decoder oracle dec (Decode into a
-   map[string]interface{} of the first value of the text):
-     if len(jsonVal) == 0 { return empty Map, nil }
-     if jsonVal[0] == '[' { jsonVal = {"object": + jsonVal + } }
-     m, err = dec(jsonVal) *)
-Definition object_wrap (b : str) : str := s "{""object"":" ++ b ++ s "}".
-Definition new_map_json (dec : str -> res value) (b : str) : res value :=
-  match b with
-  | [] => Ok (VMap [])
-  | c :: _ => if (byte c =? 91)%N then dec (object_wrap b) else dec b
-  end.
 
 Fixpoint tab_dec (tab : list (str * res value)) (b : str) : res value :=
   match tab with
@@ -35,7 +23,10 @@ Inductive jcase :=
 | JJson (safe : bool) (v : value) (out : jout)                  (* Map.Json(safe) *)
 | JIndent (prefix indent : str) (safe : bool) (v : value) (out : jout)   (* Map.JsonIndent(prefix, indent, safe) *)
 | JRound (safe usenum : bool) (v : value) (out : jout)          (* NewMapJson(Map.Json(safe)) with JsonUseNumber = usenum; Map.Copy for safe = false *)
-| JDec (b : str) (tab : list (str * res value)) (out : jout).   (* NewMapJson(b), the decoder oracle as a table *)
+| JDec (b : str) (tab : list (str * res value)) (out : jout)    (* NewMapJson(b), the decoder oracle (first value into an interface{}) as a table *)
+| JLegacy (x : str) (out : str).
+    (* the former default encoding on one string: bytes.Replace x3 over json.Marshal(x), computed by the harness with the
+       real bytes.Replace - ties Spec/JsonSpec.v `rewrite` (used by the compatibility theorem) to what that code did *)
 
 Definition opt_str_eqb (a b : option str) : bool :=
   match a, b with Some x, Some y => str_eqb x y | None, None => true | _, _ => false end.
@@ -47,11 +38,12 @@ Definition check_jcase (c : jcase) : bool :=
   | JJson safe v out => match out with JBytes b => str_eqb (map_json safe v) b | _ => false end
   | JIndent p i safe v out => match out with JBytes b => str_eqb (map_json_indent p i safe v) b | _ => false end
   | JRound safe usenum v out =>
-      match decode_segs usenum (map_quoted (post safe) (segments v)), out with
+      match decode_segs usenum (segments safe v), out with
       | Some w, JVal w' => veqb w w'
       | None, JFail => true
       | _, _ => false
       end
+  | JLegacy x out => str_eqb (rewrite (quote true x)) out
   | JDec b tab out =>
       match new_map_json (tab_dec tab) b, out with
       | Ok w, JVal w' => veqb w w'
